@@ -103,7 +103,9 @@ func (x *e1) afterRecv(sd *sideRec, rr *recvRec) {
 		return
 	}
 	twoRecv := (sd.client && r.Spec.TwoRecvC) || (!sd.client && r.Spec.TwoRecvH)
-	if sd.FirstErr != nil && !twoRecv {
+	// (only after end-of-stream: a receive may also fail because its implicit flush
+	// failed, which says nothing about the receive side)
+	if sd.FirstErr != nil && errors.Is(sd.FirstErr, io.EOF) && !twoRecv {
 		x.deliveryViol("after-error", "message delivered after a receive error", fmt.Sprintf("rpc%d %s", k, msgDescribe(rr.Data)))
 	}
 	b := rr.Data
@@ -674,7 +676,11 @@ func (x *e1) checkEnd(connAlive bool, faultFree bool) {
 		if spec.HRet == RetErr && !spec.Unknown && !r.Cancelled && !x.byz && !x.ioFired() && r.HReturned && x.pooled == nil && x.errConsumed(r) {
 			var got error
 			if spec.Shape == ShUnary {
-				if r.InvokeDone {
+				// Invoke is send+receive: if the connection went away while it was
+				// still sending, it may report that instead
+				// still sending, it may report that instead; if none of its writes failed,
+				// its result is the result of its receive
+				if r.InvokeDone && !r.InvokeWriteFailed {
 					got = r.InvokeErr
 					if got == nil {
 						x.viol("handler-error", "unary call returned nil although its handler failed", fmt.Sprintf("rpc%d", k))
@@ -707,7 +713,7 @@ func (x *e1) checkEnd(connAlive bool, faultFree bool) {
 					found = true
 				}
 			}
-			if !found && !x.clientEndedBefore(r) {
+			if !found && !x.clientEndedBefore(r) && x.serverMovedOn(r) {
 				x.viol("handler-error", "handler returned an error but no error packet with its text was sent: error-class="+errFamily(spec.HErr), fmt.Sprintf("rpc%d want %q", k, trunc(want, 60)))
 			}
 		}
@@ -741,7 +747,9 @@ func (x *e1) checkEnd(connAlive bool, faultFree bool) {
 	}
 }
 
-func isHandlerText(err error) bool { return strings.Contains(err.Error(), "rpc ") }
+func isHandlerText(err error) bool {
+	return strings.Contains(err.Error(), "rpc ") || strings.Contains(err.Error(), "unknown rpc")
+}
 
 var reNums = regexp.MustCompile(`\d+`)
 
@@ -1048,4 +1056,19 @@ func errFamily(e ErrSpec) string {
 // before the handler returned, so the server's SendError may legitimately be a no-op.
 func (x *e1) clientEndedBefore(r *rpcRec) bool {
 	return r.ClientDone && r.ClientDoneStep <= r.HRetStep
+}
+
+// serverMovedOn: the server finished handling rpc r (its SendError/CloseSend call
+// returned): it started another handler, returned, or is waiting for the next invoke.
+func (x *e1) serverMovedOn(r *rpcRec) bool {
+	for _, o := range append(append([]*rpcRec{}, x.recs...), x.probeRec) {
+		if o != r && o.HStarted && o.HStartStep > r.HRetStep {
+			return true
+		}
+	}
+	if x.serveDone {
+		return true
+	}
+	w := x.whereRole("srv.serveone")
+	return w == "NewServerStream" || w == "acquireSemaphore"
 }
